@@ -187,6 +187,17 @@ def gen_inherited(rng):
     vals = vals + sinks + [("environmentVariables", ("obj", envvars)),
                            ("files", ("obj", [("F", ("sym", [("name", "doc"), ("name", "pin")]))]))]
     envs = {"base": {"imports": [], "values": base_vals}, "root": {"imports": [("base", True)], "values": vals}}
+    layers = r.below(4)
+    if layers == 1:
+        # THREE layers: the secret sits only in the bottom one, a plain middle layer (a sibling import) lies between it and
+        # the root's own object (seeded change C03-k: containsSecrets looked at the object and its direct base only)
+        envs["mid"] = {"imports": [], "values": [("creds", ("obj", [("host", ("str", "h"))])), ("doc", ("obj", [("extra", ("num", "2"))]))]}
+        envs["root"]["imports"] = [("base", True), ("mid", True)]
+    elif layers == 2:
+        # the same as a chain root -> mid -> base, and a fourth plain layer
+        envs["mid"] = {"imports": [("base", True)], "values": [("creds", ("obj", [("host", ("str", "h"))]))]}
+        envs["mid2"] = {"imports": [("mid", True)], "values": [("creds", ("obj", [("port", ("num", "5"))]))]}
+        envs["root"]["imports"] = [("mid2", True)]
     c = G.case_from_graph(envs, "root")
     c["provs"] = {}
     c["secrets2"] = subs_map()
